@@ -316,9 +316,20 @@ class Interp:
             raise Unsupported("field %s of %s is not in the schema" % (field, sorted(classes)))
         return k
 
-    def _mro(self, c):
+    def class_home(self, c):
+        """the parsed module that defines class c: the module of the function under contract, or the contract's `class_module`
+        (objects of another module's classes handled by this function)"""
         if c in self.module.classes:
-            return self.module.mro(c)
+            return self.module
+        cm = getattr(self, "class_module", None)
+        if cm is not None and c in cm.classes:
+            return cm
+        return None
+
+    def _mro(self, c):
+        home = self.class_home(c)
+        if home is not None:
+            return home.mro(c)
         out = [c]
         for b in CLASSES.bases.get(c, []):
             out += self._mro(b)
@@ -1249,7 +1260,7 @@ class Interp:
         groups whose typeof condition is infeasible on the current path are dropped"""
         part = {}
         for c in sorted(o.classes):
-            fi = self.module.resolve_method(c, attr) if c in self.module.classes else None
+            fi = self.class_home(c).resolve_method(c, attr) if self.class_home(c) is not None else None
             if fi is not None:
                 key = ("prop" if fi.is_property else "meth", fi)
             else:
@@ -1481,7 +1492,7 @@ class Interp:
         impls = {}
         anyhit = False
         for c in o.classes:
-            fi = self.module.resolve_method(c, name) if c in self.module.classes else None
+            fi = self.class_home(c).resolve_method(c, name) if self.class_home(c) is not None else None
             impls[c] = fi
             anyhit = anyhit or fi is not None
         return impls if anyhit else None
@@ -1794,7 +1805,7 @@ class Interp:
     # ------------------------------------------------------------------------------------------ expressions
     def eval(self, node, env):
         stubs = getattr(self, "expr_stubs", None)
-        if stubs and isinstance(node, (ast.Call, ast.Attribute, ast.Compare, ast.Subscript)):
+        if stubs and isinstance(node, (ast.Call, ast.Attribute, ast.Compare, ast.Subscript, ast.Tuple)):
             key = ast.unparse(node).replace('"', "'")
             if key in stubs:
                 # an external sub-expression named by the contract: its value is the ghost parameter (assumed contract on a dependency)
@@ -1838,6 +1849,9 @@ class Interp:
         if isinstance(node, ast.Slice):
             return slice(self.eval(node.lower, env) if node.lower else None, self.eval(node.upper, env) if node.upper else None, self.eval(node.step, env) if node.step else None)
         if isinstance(node, ast.Tuple):
+            stubs = getattr(self, "expr_stubs", None)
+            if stubs and ast.unparse(node).replace('"', "'") in stubs:
+                return self.eval(node, env)  # a tuple key named by the contract (ghost value)
             return tuple(self.eval_index(e, env) for e in node.elts)
         return self.eval(node, env)
 
